@@ -34,13 +34,14 @@ LIB = [
     (('rule', 'Topt', ['p', 'x'], ('seq', [('opt', ('ref', 'p')), ('where', ('ref', 'W'), ('py', 'lambda v: v != x'))])), ['p', 's']),
     (('rule', 'Tcap2', ['p', 'q'], ('call', 'Tpair', [('seq', [('ref', 'p'), ('opt', ('ref', 'q'))])], [])), ['p', 'p']),
     (('rule', 'Tcap3', ['p', 'x'], ('call', 'Tpair', [('call', 'Tkw', [('ref', 'p'), ('ref', 'x')], [])], [])), ['p', 'v']),
+    (('rule', 'Tshadow', ['W'], ('call', 'Tpair', [('left', ('ref', 'W'), ('opt', ('lit', 'b')))], [])), ['p']),
     (('class', 'CP', ['p', 'n'], [('field', 'first', ('ref', 'p')), ('field', 'rest', ('rep', ('lit', 'b'), None, 'n'))]), ['p', 'i']),
     (('class', 'CN', ['n'], [('field', 'items', ('rep', ('lit', 'a'), 'n', 'n')), ('field', 'n2', ('py', 'n * 2'))]), ['i']),
     (('class', 'CV', ['x'], [('field', 'w', ('ref', 'W')), ('requires', None, ('py', 'w != x')), ('field', 'tag', ('py', 'x'))]), ['s']),
 ]
 LIB_NULL = {'Tsame': False, 'Tlen': False, 'Tcount': True, 'Tpair': True, 'Tval': True, 'Tsep': True,
             'Tkw': True, 'Trec': True, 'Tpass': True, 'Topt': True, 'CP': True, 'CV': False, 'Tcap2': True,
-            'Tcap3': True, 'CN': True}
+            'Tcap3': True, 'CN': True, 'Tshadow': True}
 
 NAMES = ['x', 'y', 'z', 'n', 'm', 'k']
 
@@ -393,8 +394,34 @@ def family_rules(draw, idx, ctx):
                                           ('call', 'Tval', [('ref', x)], []),
                                           ('apply', ('rx', '[ab]'), ('py', 'lambda v: (v, %s)' % x))]))
     name = 'F%d' % idx
-    fam = draw(st.integers(0, 9))
+    fam = draw(st.integers(0, 12))
     x = draw(st.sampled_from(['x', 'y', 'n']))
+    if fam == 10:
+        # static scoping: an inner let of the same name in an EARLIER alternative never binds
+        # (its token "Q" is not in any input), so the later use still denotes the outer binding
+        tn = name + 'T'
+        x = draw(st.sampled_from([x, x, 'W', 'B']))     # sometimes the name also shadows a rule
+        ref_use = draw(st.sampled_from([('call', 'Tsame', [('ref', x)], []), ('call', 'Tval', [('ref', x)], []),
+                                        ('call', 'Tkw', [('lit', 'a'), ('ref', x)], []),
+                                        ('call', 'Tkw', [('seq', [('lit', 'a'), ('call', 'Tval', [('ref', x)], [])]), ('py', '1')], [])]))
+        if draw(st.booleans()):
+            # (the binding expression never mentions the let's own name: known finding F30)
+            bind = draw(st.sampled_from([('lit', 'a'), ('lit', 'b'), ('rx', 'a+'), ('rx', '[ab]'), ('lit', 'ab')]))
+            return [('rule', name, None, ('let', x, bind, ('choice', [('let', x, ('lit', 'Q'), ('lit', 'a')), ref_use])))]
+        return [('rule', tn, [x], ('choice', [('let', x, ('lit', 'Q'), ('lit', 'a')),
+                                              ('seq', [('ref', x), draw(st.sampled_from([
+                                                  ('ref', x), ('call', 'Tpair', [('ref', x)], []),
+                                                  ('call', 'Tpair', [('left', ('ref', x), ('opt', ('lit', 'b')))], [])]))])])),
+                ('rule', name, None, ('call', tn, [draw(st.sampled_from([('lit', 'a'), ('ref', 'W'), ('rx', '[ab]')]))], []))]
+    if fam >= 11:
+        # the same compound argument text at two call sites where a name resolves differently:
+        # the rule W here, the parameter W (shadowing the rule) inside Tshadow
+        a = draw(st.sampled_from([('lit', 'a'), ('lit', 'b'), ('ref', 'B'), ('rx', 'a+')]))
+        direct = ('call', 'Tpair', [('left', ('ref', 'W'), ('opt', ('lit', 'b')))], [])
+        via = ('call', 'Tshadow', [a], [])
+        order = [direct, via] if fam == 11 else [via, direct]
+        return [('rule', name, None, ('choice', [('seq', [order[0], ('lit', '2')]), ('seq', [order[1], ('opt', ('lit', '1'))]),
+                                                 order[0]]))]
     if fam >= 7:
         # the same template instantiated twice at one position with arguments that differ only
         # by order / in a nested place (memo keys must tell them apart)
